@@ -188,6 +188,7 @@ spifconf_free_subsystem(void)
         v = v->next;
         spifconf_free_var(tmp);
     }
+    spifconf_vars = NULL;
     for (i = 0; i < builtin_idx; i++) {
         FREE(builtins[i].name);
     }
